@@ -6,7 +6,6 @@ import (
 	crand "crypto/rand"
 	"encoding/base64"
 	"fmt"
-	"io"
 	mrand "math/rand"
 	"net/http"
 	"net/url"
@@ -29,16 +28,23 @@ type scriptedReader struct {
 	mu   sync.Mutex
 	data []byte
 	pos  int
+	over int // bytes requested beyond the script
 }
 
 func (s *scriptedReader) Read(p []byte) (int, error) {
 	s.mu.Lock()
 	defer s.mu.Unlock()
-	if s.pos+len(p) > len(s.data) {
-		return 0, io.ErrUnexpectedEOF
+	// crypto/rand treats a failing Reader as fatal; a generator that asks for more than the script holds (e.g. one that
+	// reads ahead in blocks) gets a fixed filler instead, and the over-read shows in the consumed count
+	for i := range p {
+		if s.pos < len(s.data) {
+			p[i] = s.data[s.pos]
+		} else {
+			p[i] = byte(17 * (s.pos - len(s.data)))
+			s.over++
+		}
+		s.pos++
 	}
-	copy(p, s.data[s.pos:s.pos+len(p)])
-	s.pos += len(p)
 	return len(p), nil
 }
 
